@@ -5,7 +5,7 @@ git -C /repo apply $PATCH || { echo "patch does not apply to /repo"; exit 2; }
 for p in "$@"; do
   # evidence files are rewritten on every run: keep the record of the unchanged tree
   cp /verif/evidence/$p.json /tmp/evidence_$p.json.keep 2>/dev/null
-  out=$(cd /verif && bin/check $p 2>&1); rc=$?
+  out=$(cd /verif && bin/check $p --tier ${TIER:-quick} 2>&1); rc=$?
   [ -f /tmp/evidence_$p.json.keep ] && mv /tmp/evidence_$p.json.keep /verif/evidence/$p.json
   echo "== $p exit $rc: $(echo "$out" | grep -E "^(VIOLATION|OK|UNDECIDED|KNOWN)" | head -3 | tr '\n' ' ')"
   echo "$out" | grep "failed obligation" | head -4
